@@ -3,13 +3,14 @@
 usage: tools_verify_seeds.py <seed-dir> <id> [<id> ...]   (seed-dir has <id>/patch.diff, demo .rs, meta.json)"""
 import sys, os, re, json, subprocess, shutil, glob
 SD = sys.argv[1]
-WT = '/tmp/vs-wt'
-ENV = dict(os.environ, CARGO_NET_OFFLINE='true', CARGO_TARGET_DIR='/tmp/vs-target')
+TAG = os.environ.get('VS_TAG', '')
+WT = '/tmp/vs-wt' + TAG
+ENV = dict(os.environ, CARGO_NET_OFFLINE='true', CARGO_TARGET_DIR='/tmp/vs-target' + os.environ.get('VS_TAG', ''))
 def sh(cmd, cwd=None, timeout=3000):
     p = subprocess.run(cmd, shell=True, cwd=cwd, env=ENV, capture_output=True, text=True, timeout=timeout)
     return p.returncode, p.stdout + p.stderr
 out = {}
-resf = os.path.join(SD, 'verify.json')
+resf = os.path.join(SD, 'verify%s.json' % TAG)
 if os.path.exists(resf):
     out = json.load(open(resf))
 for sid in sys.argv[2:]:
